@@ -1651,7 +1651,8 @@ def oracle(ctx, disagreements, broken):
         for kind, detail in oracle_history(h):
             if len(ctx.failures) < 90:
                 _fail(ctx, kind, {"level": "history", "case": h}, detail)
-    for op, kw in F.profile_cases(rng, True)[:: (7 if quick else 1)]:
+    # every case on a locus with >= 128 known features is evaluated (the stride below would keep one in seven)
+    for op, kw in F.profile_cases(rng, True)[:: (7 if quick else 1)] + F.G.big_locus_profile_cases(rng, 3 if quick else 30):
         n_cases += 1
         for kind, detail in oracle_profile(op, kw):
             _fail(ctx, kind, {"level": "profile", "op": op, "case": kw}, detail)
